@@ -121,10 +121,21 @@ def hkey(*parts):
 _SCRATCH = []
 
 
+_N_SCRATCH = [0]
+ODD_NAME = 'w [1]*?\u00e9'      # space, glob metacharacters, a non-ASCII character
+
+
 def scratch_dir(prefix='vmon_'):
+    """A fresh scratch directory. Every second one is nested in a folder whose name holds a space, glob
+    metacharacters and a non-ASCII character, so that every file-based workload also runs under such a path
+    (VMON_PLAIN_DIRS=1 turns that off)."""
     base = '/dev/shm' if os.path.isdir('/dev/shm') and os.access('/dev/shm', os.W_OK) else None
     d = tempfile.mkdtemp(prefix=prefix, dir=base)
     _SCRATCH.append(d)
+    _N_SCRATCH[0] += 1
+    if (_N_SCRATCH[0] + os.getpid()) % 2 == 0 and not os.environ.get('VMON_PLAIN_DIRS'):
+        d = os.path.join(d, ODD_NAME)
+        os.mkdir(d)
     return d
 
 
